@@ -642,7 +642,7 @@ pub fn check_state(p: &Props, ops: &[Op], info: &PlanInfo, obs: &Obs, last_only:
                         (None, None) => "setup-did-not-create-default",
                         (None, Some(_)) => if exp[k].is_none() { "setup-created-unexpected-resource" } else { "setup-created-non-default-value" },
                     };
-                    out.push(v("C13", sig, format!("resource {} after Dispatcher::setup is {:?}, expected {:?} (pre-inserted: {:?})", nm, first[k], exp[k], pre[k])));
+                    out.push(v("C13", sig, format!("resource {} after Dispatcher::setup is {:?}, expected {:?} (pre-inserted: {:?}{})", nm, first[k], exp[k], pre[k], if mask & 4 != 0 { "; the world also holds resources of the same types under other dynamic ids" } else { "" })));
                 }
                 if second[k] != first[k] {
                     out.push(v("C13", "setup-not-idempotent", format!("a second setup changed resource {} from {:?} to {:?}", nm, first[k], second[k])));
@@ -652,7 +652,7 @@ pub fn check_state(p: &Props, ops: &[Op], info: &PlanInfo, obs: &Obs, last_only:
                 }
             }
             if *extra {
-                out.push(v("C13", "setup-created-unexpected-resource", "setup created a resource nobody declared through a default provider".to_string()));
+                out.push(v("C13", "setup-created-unexpected-resource", if mask & 4 != 0 { "setup touched a resource of the same type under another dynamic id (which nothing declares)".to_string() } else { "setup created a resource nobody declared through a default provider".to_string() }));
             }
         }
         if let Some(su) = &obs.setups {
